@@ -211,7 +211,7 @@ def wire(c):
         if fn == "tanh":
             return f"tanh {tag} {ence(np.exp(2 * lo))} {ence(np.exp(2 * hi))}"
         if fn == "atanh":
-            return f"atanh {tag} {enc(np.exp(2 * lo))} {enc(np.exp(2 * hi))}"
+            return f"atanh {tag} {ence(np.exp(2 * lo))} {ence(np.exp(2 * hi))}"
         if fn in ORACLE_ONLY:
             return "consts"
         T = np.pi if fn == "tan" else 2 * np.pi
@@ -318,10 +318,8 @@ def tol(c, v, bound):
         return 1e-14            # the double 2*pi is not the real 2*pi (2.4e-16 per period, |x| <= 80)
     if fn == "tan":
         return (1 + v * v) * 2e-14
-    if fn in ("sig", "tanh"):
+    if fn in ("sig", "tanh", "atanh"):
         return 1e-15
-    if fn == "atanh":
-        return 1e-14 * max(1.0, abs(bound) if math.isfinite(bound) else 1.0)
     if fn == "sqrtpow":
         return 64 * core.ulp(m) + 1e-300
     if fn == "pow":
@@ -385,7 +383,7 @@ def monotone_exact(c, lo, hi):
             if u == 0.0 or v == 0.0 or math.isinf(u) or math.isinf(v) or min(u, v) ** 2 < 1e-300 or max(u, v) ** 2 > 1e300:
                 return None        # x**k under/overflows in binary64: outside the model
             return (0.0 if lo <= 0 <= hi else min(u, v)), max(u, v)
-        if fn in MONO or fn in ("sig", "tanh"):
+        if fn in MONO or fn in ("sig", "tanh", "atanh"):
             f = ref_fn(c)
             return float(f(np.float64(lo))), float(f(np.float64(hi)))
         if fn == "pow":
@@ -597,7 +595,7 @@ def gen_cases(ctx):
          ("log", "A", "method", [1.0, 2.0], [2.0, 3.0])]
     for fn, form, entry, lo, hi in W:
         cases.append(mk("witness", fn, form, entry, lo, hi))
-    cases.append(mk("witness", "atanh", "S", "method", [400.0], [500.0]))      # open finding KF-C05-activation-tanh-overflow
+    cases.append(mk("witness", "atanh", "S", "method", [400.0], [500.0]))      # raised AssertionError before fa5d3fa
     cases.append(mk("witness", "atanh", "A", "method", [-1.0, 1.0, -3.0], [2.0, 2.0, -1.0]))
     cases.append(mk("witness", "pow", "S", "method", [1.0], [2.0], -2, "int"))
     cases.append(mk("witness", "pow", "S", "method", [-1.0], [2.0], -1, "int"))
@@ -941,7 +939,7 @@ def run(ctx: core.Check, cases=None):
                 "mixing moderate and extreme); sqrt/log with lo just below 0 (-5e-324 ... -1e-9) and just inside, through method, "
                 "np.<ufunc> and methods.<fn>; arrays whose elements have an endpoint exactly on a multiple of pi/2; powers whose "
                 "endpoint powers underflow/overflow.  The operand is checked for in-place modification after every call. "
-                "Every function (incl. activation.tanh, whose Interval/Interval division goes through C01's quotient table) on "
+                "Every function (incl. activation.tanh) on "
                 "arrays mixing the sign classes per element (negative / straddling / positive / touching 0 / the point 0), rank 1 "
                 "and 2; compositions sqrt(X**k); all grid and array streams again at scales 2^-30, 2^-52, 2^-70, 1e-19, 1e-170, 2^36, "
                 "1e150; rank-2 operands in Fortran order, as transposed views and as rank 3, python lists, integer dtype; operands "
@@ -978,8 +976,6 @@ def run(ctx: core.Check, cases=None):
         model = parse_model(c, rep)
         if c["fn"] in ORACLE_ONLY:
             ctx.bump("tie-not-applicable:composition")
-        elif c["fn"] == "atanh" and not all(math.isfinite(float(np.exp(2 * x))) for x in c["hi"]):
-            ctx.bump("tie-not-applicable:atanh-overflow")
         elif pow_out_of_range(c):
             ctx.bump("tie-not-applicable:pow-underflow/overflow")
         elif agree(c, impl, model):
